@@ -24,10 +24,17 @@ func (opt Option) AsIR(schemas ast.Schemas, builders ast.Builders, root ast.Buil
 		assignments = append(assignments, irAssignment)
 	}
 
+	// the same configuration is turned into an option for every selected builder:
+	// each of them gets its own arguments
+	args := make([]ast.Argument, 0, len(opt.Arguments))
+	for _, arg := range opt.Arguments {
+		args = append(args, arg.DeepCopy())
+	}
+
 	return ast.Option{
 		Name:        opt.Name,
 		Comments:    opt.Comments,
-		Args:        opt.Arguments,
+		Args:        args,
 		Assignments: assignments,
 	}, nil
 }
@@ -64,7 +71,10 @@ type AssignmentValue struct {
 
 func (value AssignmentValue) AsIR(schemas ast.Schemas, assignmentPath ast.Path) (ast.AssignmentValue, error) {
 	if value.Argument != nil {
-		return ast.AssignmentValue{Argument: value.Argument}, nil
+		// ... and its own argument records
+		argument := value.Argument.DeepCopy()
+
+		return ast.AssignmentValue{Argument: &argument}, nil
 	}
 	if value.Constant != nil {
 		return ast.AssignmentValue{Constant: value.Constant}, nil
